@@ -291,7 +291,7 @@ def lower(e, doc, via_doc=True):
         # doc: sor< not_at< R1 >, seq< R... > >
         return L(E('sor', [E('not_at', [a[0]]), E('seq', a)]))
     if n == 'try_catch_return_false':
-        return E('tcrf', [E('void'), L(seqof(a))])
+        return E('tcrf', [E('parse_error_base'), L(seqof(a))])   # public alias catches tao::pegtl::parse_error_base only
     if n == 'try_catch_any_return_false':
         return E('tcrf', [E('any_type'), L(seqof(a))])
     if n == 'try_catch_std_return_false':
